@@ -86,6 +86,8 @@ def compare_case(kind, impl, model, fields=None):
         return []
     if kind == "G":
         return [] if bi == bm else ["G impl=%r model=%r" % (bi, bm)]
+    if kind == "C":
+        return compare_frames(bi, bm)
     si, sm = parse_obs(bi), parse_obs(bm)
     if len(si) != len(sm):
         return ["segments impl=%d model=%d" % (len(si), len(sm))]
@@ -114,3 +116,48 @@ def read_obs(path):
                 p.append("")
             d[p[0]] = (p[1], p[2])
     return d
+
+
+def compare_frames(bi, bm):
+    """CLI frames: frames separated by \\x1e, lines by \\x1d.  The model prints ????? for a distance cell."""
+    fi = bi.split("\x1e") if bi else []
+    fm = bm.split("\x1e") if bm else []
+    if len(fi) != len(fm):
+        return ["frames impl=%d model=%d" % (len(fi), len(fm))]
+    out = []
+    for n, (a, b) in enumerate(zip(fi, fm)):
+        la, lb = a.split("\x1d"), b.split("\x1d")
+        if len(la) != len(lb):
+            out.append("frame %d lines impl=%d model=%d" % (n, len(la), len(lb)))
+            continue
+        for k, (x, y) in enumerate(zip(la, lb)):
+            if x == y:
+                continue
+            if len(x) == len(y) and line_close(x, y):
+                continue
+            out.append("frame %d line %d impl=%r model=%r" % (n, k, x, y))
+            if len(out) > 8:
+                return out
+    return out
+
+
+def line_close(x, y):
+    """same line up to (a) a distance cell the model cannot compute (?????) and (b) the last digit of a
+    coordinate cell (binary64 vs exact rational rounding)"""
+    import re
+    if "?????" in y:
+        i = y.index("?????")
+        x = x[:i] + "?????" + x[i + 5:]
+        if x == y:
+            return True
+    # coordinates occupy columns 25..46 of a row: compare numerically
+    ta, tb = x.split(" "), y.split(" ")
+    if len(ta) != len(tb):
+        return False
+    for p, q in zip(ta, tb):
+        if p == q:
+            continue
+        if re.fullmatch(r"-?\d+\.\d{5}", p) and re.fullmatch(r"-?\d+\.\d{5}", q) and abs(float(p) - float(q)) <= 1.1e-5:
+            continue
+        return False
+    return True
